@@ -20,6 +20,7 @@ type c05op struct {
 	sum    bool
 	lo, hi int    // write msg[lo:hi]
 	prefix []byte // Sum(prefix)
+	spare  int    // spare capacity class of the prefix slice: 0 none, 1 less than the digest, 2 more
 	want   []byte // expected digest at a sum
 	phase  string // "mid", "final", "repeat", "after-reset-mid", "after-reset"
 }
@@ -86,13 +87,13 @@ func c05gen(a *algo, j int64, r *rand.Rand) *c05scenario {
 				if ph == 1 {
 					ph1 = "after-reset-mid"
 				}
-				ops = append(ops, c05op{sum: true, prefix: prefix, want: a.ref.Sum(sc.size, sc.key, msg[:cuts[k]]), phase: ph1})
+				ops = append(ops, c05op{sum: true, prefix: prefix, spare: r.IntN(3), want: a.ref.Sum(sc.size, sc.key, msg[:cuts[k]]), phase: ph1})
 			}
 		}
 		want := a.ref.Sum(sc.size, sc.key, msg)
 		if ph == 0 {
 			ops = append(ops, c05op{sum: true, want: want, phase: "final"})
-			ops = append(ops, c05op{sum: true, prefix: []byte{0xaa, 0xbb, 0xcc}, want: want, phase: "repeat"})
+			ops = append(ops, c05op{sum: true, prefix: []byte{0xaa, 0xbb, 0xcc}, spare: r.IntN(3), want: want, phase: "repeat"})
 		} else {
 			ops = append(ops, c05op{sum: true, want: want, phase: "after-reset"})
 		}
@@ -129,7 +130,7 @@ func TestC05(t *testing.T) {
 	m := mon.New(t, "C05")
 	defer m.Done()
 	bv := buildVariant()
-	m.Rule("case = (alg by index parity; digest size cycling over ALL sizes 1..64 for blake2b via New/New256/384/512, {32, keyed 16} for blake2s; key: nil/empty/boundary/every length 1..max in turn; message length by stratum: exact k*bs, k*bs±1, k*bs±2, 0..bs, dense-near-multiple, uniform 0..2000; chunking single/bytewise/blockwise/fill-then-rest/random incl. empty writes; up to 2 interleaved Sum(prefix) compared with the reference digest of the prefix; final Sum twice; Reset; second message hashed and compared with a fresh keyed reference digest). Every case is executed on EVERY dispatch variant in VerifImpls() (forced with VerifSetImpl) and in the purego build; each Write operand is copied to end (or start) at a PROT_NONE guard page. Oracle = RFC 7693 executable spec (h/ref/blake2), witnessed per case by python hashlib. One evaluation = one (case, variant) run; distinct = (alg, variant, size class, keyed, length class, chunk style).")
+	m.Rule("case = (alg by index parity; digest size cycling over ALL sizes 1..64 for blake2b via New/New256/384/512, {32, keyed 16} for blake2s; key: nil/empty/boundary/every length 1..max in turn; message length by stratum: exact k*bs, k*bs±1, k*bs±2, 0..bs, dense-near-multiple, uniform 0..2000; chunking single/bytewise/blockwise/fill-then-rest/random incl. empty writes; up to 2 interleaved Sum(prefix) compared with the reference digest of the prefix; final Sum twice; Reset; second message hashed and compared with a fresh keyed reference digest). Every case is executed on EVERY dispatch variant in VerifImpls() (forced with VerifSetImpl) and in the purego build; each Write operand is copied to end (or start) at a PROT_NONE guard page and scribbled over (0xA5) as soon as Write returns, the caller's key slice is scribbled after the constructor returns and after Reset, Sum prefixes have none/small/large spare capacity inside a sentinel-filled backing array, and the last 8 slices returned by Sum are re-verified against snapshots after every later call (same and other digests). Oracle = RFC 7693 executable spec (h/ref/blake2), witnessed per case by python hashlib. One evaluation = one (case, variant) run; distinct = (alg, variant, size class, keyed, length class, chunk style).")
 	m.Assume("h/ref/blake2 implements RFC 7693 (unit test: RFC appendix A/B/E vectors, 768 official keyed KATs, 4608 hashlib comparisons); python hashlib.blake2b/blake2s (reference C implementation) is an independent second witness, disagreement between the two is reported as inconclusive; VerifSetImpl really selects the named hashBlocks variant (hook file in /repo, build tag verif)")
 	if err := refb2.SelfTest(); err != nil {
 		m.Inconclusive("reference self-test failed: " + err.Error())
@@ -232,6 +233,172 @@ func TestC05(t *testing.T) {
 	m.Gate("keyed_cases", m.N(1000, 50000), "keyed (MAC) cases, incl. keyed Reset")
 	m.Gate("resets_checked", m.N(3000, 150000), "Reset followed by a second message compared with a fresh keyed reference digest")
 	m.Gate("interleaved_sums", m.N(500, 20000), "mid-stream Sum compared with the reference digest of the prefix")
+	m.Gate("write_operands_scribbled", m.N(20000, 1000000), "Write operand overwritten with 0xA5 right after Write returned (io.Writer: must not retain p)")
+	m.Gate("keys_scribbled_after_constructor", m.N(4000, 200000), "caller's key slice overwritten after New*(…, key) returned (and again after Reset); digests must stay keyed with the original key")
+	m.Gate("retained_outputs_verified", m.N(20000, 1000000), "re-verification of the last 8 slices returned by Sum against their snapshots after later calls on the same and on other digests")
+	for cl := 0; cl < 3; cl++ {
+		m.Gate(fmt.Sprintf("sum_prefix_spare_class:%d", cl), m.N(2000, 100000), "Sum(prefix) with spare capacity none(0) / smaller than the digest(1) / larger(2): prefix unchanged, nothing written beyond cap")
+	}
+}
+
+// c05ring spans cases and variants: outputs of earlier digests are re-verified
+// after calls on later ones.
+var c05ring retainRing
+
+type c05sumRes struct {
+	op  c05op
+	got []byte
+}
+
+type c05result struct {
+	sums         []c05sumRes
+	oneShot      []byte
+	oneShotOK    bool
+	structural   string
+	structDetail map[string]any
+	fault        *guard.Fault
+	pv           any
+}
+
+// c05exec drives one scenario on the currently forced variant. Unless gentle,
+// it is hostile about caller memory: the key slice handed to the constructor
+// and every Write operand are scribbled over as soon as the call returns, Sum
+// prefixes come with none/small/large spare capacity inside a sentinel-filled
+// backing array, and returned slices are kept and re-verified later.
+func c05exec(m *mon.M, sc *c05scenario, impl string, arena *guard.Arena, gentle bool) (res c05result) {
+	a := sc.a
+	tag := a.name + ":" + impl
+	setStruct := func(key string, d map[string]any) {
+		if res.structural == "" {
+			res.structural, res.structDetail = key, d
+		}
+	}
+	verifyRing := func(after string) {
+		if gentle {
+			return
+		}
+		if bad := c05ring.verify(); bad != nil {
+			setStruct("returned-slice-modified-later:"+a.name, map[string]any{"slice": bad.what, "was": mon.Hex(bad.snap), "now": mon.Hex(bad.s), "noticed_after": after + " on " + tag})
+		}
+		m.Count("retained_outputs_verified", 1)
+	}
+	res.fault, res.pv = guard.Run(func() {
+		key := cloneKey(sc.key)
+		h, ctor, err := a.newHash(sc.size, key, sc.fixedCtor)
+		if err != nil {
+			setStruct("constructor-rejects-valid-params:"+a.name, map[string]any{"ctor": ctor, "err": err.Error()})
+			return
+		}
+		if !gentle && len(key) > 0 {
+			scribble(key) // the constructor must have copied the key
+			m.Count("keys_scribbled_after_constructor", 1)
+		}
+		if h.Size() != sc.size || h.BlockSize() != a.bs {
+			setStruct("wrong-size-report:"+a.name, map[string]any{"Size": h.Size(), "BlockSize": h.BlockSize()})
+		}
+		for ph := 0; ph < 2; ph++ {
+			if ph == 1 {
+				h.Reset()
+				if !gentle {
+					scribble(key)
+				}
+			}
+			for _, o := range sc.ops[ph] {
+				if o.sum {
+					var in, back []byte
+					capIn := 0
+					if o.prefix != nil {
+						spare := 0
+						switch o.spare {
+						case 1:
+							spare = sc.size - 1
+							if spare > 5 {
+								spare = 5
+							}
+						case 2:
+							spare = sc.size + 6
+						}
+						back = make([]byte, len(o.prefix)+spare+16)
+						for i := range back {
+							back[i] = 0x5c
+						}
+						copy(back, o.prefix)
+						capIn = len(o.prefix) + spare
+						in = back[:len(o.prefix):capIn]
+						if !gentle {
+							m.Count(fmt.Sprintf("sum_prefix_spare_class:%d", o.spare), 1)
+						}
+					}
+					out := h.Sum(in)
+					if back != nil {
+						if !bytes.Equal(back[:len(o.prefix)], o.prefix) {
+							setStruct("sum-prefix-clobbered:"+a.name, map[string]any{"prefix": mon.Hex(o.prefix), "now": mon.Hex(back[:len(o.prefix)])})
+						}
+						for _, x := range back[capIn:] {
+							if x != 0x5c {
+								setStruct("sum-writes-beyond-cap:"+a.name, map[string]any{"prefix_len": len(o.prefix), "cap": capIn, "backing": mon.Hex(back)})
+								break
+							}
+						}
+					}
+					if len(out) < len(o.prefix) || !bytes.Equal(out[:len(o.prefix)], o.prefix) {
+						setStruct("sum-prefix-clobbered:"+a.name, map[string]any{"prefix": mon.Hex(o.prefix), "out": mon.Hex(out)})
+						res.sums = append(res.sums, c05sumRes{o, nil})
+					} else {
+						res.sums = append(res.sums, c05sumRes{o, append([]byte{}, out[len(o.prefix):]...)})
+					}
+					if !gentle {
+						c05ring.add(out, fmt.Sprintf("result of Sum(%d-byte prefix, spare class %d) on %s, phase %s", len(o.prefix), o.spare, tag, o.phase))
+					}
+					verifyRing("Sum")
+					continue
+				}
+				src := sc.msg[ph][o.lo:o.hi]
+				var buf []byte
+				if sc.startAlign {
+					buf = arena.Start(len(src), src)
+				} else {
+					buf = arena.End(len(src), src)
+				}
+				n, err := h.Write(buf)
+				if n != len(src) || err != nil {
+					setStruct("write-short:"+a.name, map[string]any{"n": n, "len": len(src), "err": fmt.Sprint(err)})
+				}
+				if !bytes.Equal(buf, src) {
+					setStruct("write-modifies-input:"+tag, nil)
+				}
+				if !gentle {
+					scribble(buf) // Write must not retain p
+					m.Count("write_operands_scribbled", 1)
+				}
+				verifyRing("Write")
+			}
+		}
+		if !keyedKey(sc.key) {
+			// the one-shot functions have their own last-block logic; the
+			// whole message ends at the guard page
+			src := sc.msg[0]
+			buf := arena.End(len(src), src)
+			res.oneShot, res.oneShotOK = a.oneShot(sc.size, buf)
+		}
+	})
+	return res
+}
+
+// c05gentleAgrees re-runs the scenario without any scribbling: if everything is
+// right then, the divergence is caused by the implementation depending on
+// caller memory after the call returned.
+func c05gentleAgrees(m *mon.M, sc *c05scenario, impl string, arena *guard.Arena) bool {
+	g := c05exec(m, sc, impl, arena, true)
+	if g.fault != nil || g.pv != nil || g.structural != "" {
+		return false
+	}
+	for _, s := range g.sums {
+		if !bytes.Equal(s.got, s.op.want) {
+			return false
+		}
+	}
+	return true
 }
 
 func c05run(m *mon.M, sc *c05scenario, impl string, arena *guard.Arena) {
@@ -246,85 +413,20 @@ func c05run(m *mon.M, sc *c05scenario, impl string, arena *guard.Arena) {
 		}
 		return w
 	}
-	type sumRes struct {
-		op  c05op
-		got []byte
-	}
-	var sums []sumRes
-	var oneShot []byte
-	var oneShotOK bool
-	var structural string
-	var structDetail map[string]any
-	fault, pv := guard.Run(func() {
-		h, ctor, err := sc.newHash()
-		if err != nil {
-			structural = "constructor-rejects-valid-params:" + a.name
-			structDetail = map[string]any{"ctor": ctor, "err": err.Error()}
-			return
-		}
-		if h.Size() != sc.size || h.BlockSize() != a.bs {
-			structural = "wrong-size-report:" + a.name
-			structDetail = map[string]any{"Size": h.Size(), "BlockSize": h.BlockSize()}
-		}
-		for ph := 0; ph < 2; ph++ {
-			if ph == 1 {
-				h.Reset()
-			}
-			for _, o := range sc.ops[ph] {
-				if o.sum {
-					var in []byte
-					if o.prefix != nil {
-						in = append(make([]byte, 0, len(o.prefix)+70), o.prefix...)
-					}
-					out := h.Sum(in)
-					if len(out) < len(o.prefix) || !bytes.Equal(out[:len(o.prefix)], o.prefix) {
-						structural = "sum-prefix-clobbered:" + a.name
-						structDetail = map[string]any{"prefix": mon.Hex(o.prefix), "out": mon.Hex(out)}
-						out = nil
-					} else {
-						out = out[len(o.prefix):]
-					}
-					sums = append(sums, sumRes{o, out})
-					continue
-				}
-				src := sc.msg[ph][o.lo:o.hi]
-				var buf []byte
-				if sc.startAlign {
-					buf = arena.Start(len(src), src)
-				} else {
-					buf = arena.End(len(src), src)
-				}
-				n, err := h.Write(buf)
-				if n != len(src) || err != nil {
-					structural = "write-short:" + a.name
-					structDetail = map[string]any{"n": n, "len": len(src), "err": fmt.Sprint(err)}
-				}
-				if !bytes.Equal(buf, src) {
-					structural = "write-modifies-input:" + tag
-				}
-			}
-		}
-		if !keyedKey(sc.key) {
-			// the one-shot functions have their own last-block logic; the
-			// whole message ends at the guard page
-			src := sc.msg[0]
-			buf := arena.End(len(src), src)
-			oneShot, oneShotOK = a.oneShot(sc.size, buf)
-		}
-	})
-	if fault != nil {
+	res := c05exec(m, sc, impl, arena, false)
+	sums := res.sums
+	if res.fault != nil {
 		m.Count("guard_faults", 1)
-		m.Violation("guard-page-fault:"+tag, wit(map[string]any{"fault": fault.Err}))
+		m.Violation("guard-page-fault:"+tag, wit(map[string]any{"fault": res.fault.Err}))
 		return
 	}
-	if pv != nil {
-		m.Violation("panic:"+tag, wit(map[string]any{"panic": fmt.Sprint(pv)}))
+	if res.pv != nil {
+		m.Violation("panic:"+tag, wit(map[string]any{"panic": fmt.Sprint(res.pv)}))
 		return
 	}
-	if structural != "" {
-		m.Violation(structural, wit(structDetail))
+	if res.structural != "" {
+		m.Violation(res.structural, wit(res.structDetail))
 	}
-	okSoFar := true
 	for _, s := range sums {
 		good := bytes.Equal(s.got, s.op.want)
 		switch s.op.phase {
@@ -338,9 +440,12 @@ func c05run(m *mon.M, sc *c05scenario, impl string, arena *guard.Arena) {
 		}
 		d := wit(map[string]any{"phase": s.op.phase, "got": mon.Hex(s.got), "want": mon.Hex(s.op.want)})
 		switch {
-		case s.op.phase == "repeat" && okSoFar:
+		case c05gentleAgrees(m, sc, impl, arena):
+			d["note"] = "the same scenario is correct when the caller leaves key and Write buffers untouched after the calls return"
+			m.Violation("retains-caller-memory:"+tag, d)
+		case s.op.phase == "repeat":
 			m.Violation("sum-disturbs-state:"+tag, d)
-		case (s.op.phase == "after-reset" || s.op.phase == "after-reset-mid") && okSoFar:
+		case s.op.phase == "after-reset" || s.op.phase == "after-reset-mid":
 			// Reset's fault only if a freshly constructed hash driven with the
 			// same second-phase operations gets this digest right
 			if c05freshAgrees(sc, s.op) {
@@ -351,14 +456,13 @@ func c05run(m *mon.M, sc *c05scenario, impl string, arena *guard.Arena) {
 		default:
 			m.Violation("wrong-digest:"+tag, d)
 		}
-		okSoFar = false
 		break // later sums of this run are consequences of the first divergence
 	}
-	if oneShotOK {
+	if res.oneShotOK {
 		m.Count("oneshot_checked", 1)
 		want := sums[finalIdx(sc.ops[0])].op.want
-		if !bytes.Equal(oneShot, want) {
-			m.Violation("wrong-digest-oneshot:"+tag, wit(map[string]any{"got": mon.Hex(oneShot), "want": mon.Hex(want)}))
+		if !bytes.Equal(res.oneShot, want) {
+			m.Violation("wrong-digest-oneshot:"+tag, wit(map[string]any{"got": mon.Hex(res.oneShot), "want": mon.Hex(want)}))
 		}
 	}
 }
